@@ -10,6 +10,7 @@ import (
 	"encoding/hex"
 	"encoding/json"
 	"errors"
+	"math/big"
 	"sort"
 	"strconv"
 	"strings"
@@ -54,6 +55,9 @@ func c07ErrClass(err error) string {
 	if err == nil {
 		return "ok"
 	}
+	if err == errC07Panic {
+		return "panic"
+	}
 	var ce *tss.CoordinatorError
 	var se *tss.SubsetError
 	var me *comm.CommunicationError
@@ -77,12 +81,24 @@ func c07ErrClass(err error) string {
 	return "other"
 }
 
+// c07Signing builds the process through the repository's own constructors (NewSigning), over a key-share store that
+// serves the repository's fixture key share with committee and threshold replaced.
 func c07Signing(kind, sid string, h *c07Host, c comm.Communication, holders []peer.ID, t int) c07Decider {
 	if kind == "frost" {
-		return frostSigning.VerifC07NewSigning(sid, h, c, holders, t)
+		s, err := frostSigning.NewSigning(1, []byte("verif"), c07Tweak, "msg-"+sid, sid, h, c, &c07FrostFetcher{holders, t})
+		if err != nil {
+			panic("frost NewSigning: " + err.Error())
+		}
+		return s
 	}
-	return ecdsaSigning.VerifC07NewSigning(sid, h, c, holders, t)
+	s, err := ecdsaSigning.NewSigning(big.NewInt(7), "msg-"+sid, sid, h, c, &c07ECDSAFetcher{holders, t})
+	if err != nil {
+		panic("ecdsa NewSigning: " + err.Error())
+	}
+	return s
 }
+
+const c07Tweak = "c82aa6ae534bb28aaafeb3660c31d6a52e187d8f05d48bb6bdb9b733a9b42212"
 
 var c07Bully = relayer.BullyConfig{
 	PingWaitTime: time.Second, PingBackOff: time.Second, PingInterval: time.Second,
@@ -145,6 +161,21 @@ func init() {
 		}
 		return r + ":" + c07ParamPeers(s.StartParams(c07PeerList(a[4])))
 	}
+	// newsigning <kind> <self> <t> <sid> <holders> <peerstore> — the process as the repository's constructor builds it on
+	//   a relayer whose libp2p peerstore holds <peerstore>: who it regards as valid coordinators and whom it elects
+	//   => valid=<ValidCoordinators()>;coord=<static elector over them>
+	ops["C07.newsigning"] = func(a []string) string {
+		self := c07Peer(a[1])
+		t, _ := strconv.Atoi(a[2])
+		sid := c07Sid(a[3])
+		s := c07Signing(a[0], sid, c07NewHost(self, c07PeerList(a[5])), c07NewComm(), c07PeerList(a[4]), t)
+		valid := s.ValidCoordinators()
+		p, err := elector.NewCoordinatorElector(sid).Coordinator(context.Background(), valid)
+		if err != nil {
+			return "err"
+		}
+		return "valid=" + c07Toks(valid) + ";coord=" + c07Tok(p)
+	}
 	// initiate <kind> <self> <t> <sid> <holders> <excluded> <arrivals>
 	//   => n=<ready messages taken>;start=<subset in the start broadcast|none>;run=<subset handed to Run|none>;init=<initiate broadcasts>
 	ops["C07.initiate"] = func(a []string) string {
@@ -168,7 +199,9 @@ func init() {
 		var rerr error
 		go func() {
 			defer close(done)
-			rerr = co.VerifC07Initiate(ctx, []tss.TssProcess{proc}, make(chan interface{}, 4), excluded)
+			rerr = c07Guard(func() error {
+				return co.VerifC07Initiate(ctx, []tss.TssProcess{proc}, make(chan interface{}, 4), excluded)
+			})
 		}()
 		n := 0
 		for _, tok := range arrivals {
@@ -203,6 +236,9 @@ func init() {
 		cancel()
 		if !c07WaitDone(done) {
 			return "hang"
+		}
+		if rerr == errC07Panic {
+			return "panic"
 		}
 		if rerr != nil {
 			return "err"
@@ -241,8 +277,9 @@ func init() {
 		}
 		return "n=" + itoa(n) + ";start=" + start + ";run=" + run + ";init=" + inits
 	}
-	// retry2 <self> <t> <sid> <peers> <claimant|-> <events> — real Execute, SECOND attempt: the static coordinator stays
-	//   silent (CoordinatorTimeout passes), the relayer re-elects without it; with a claimant (a listed peer ranked above
+	// retry2 <self> <t> <sid> <peers> <first> <claimant|-> <events> — real Execute, SECOND attempt. first = `silent` (the
+	//   static coordinator never speaks, CoordinatorTimeout passes) or the error the first Run returns (codes of C11:
+	//   t<culprits> a tss error naming culprits, c<peer>, m); the relayer re-elects without the culprits; with a claimant (a listed peer ranked above
 	//   this relayer) it follows the claimant, otherwise it coordinates itself. Then the events are delivered:
 	//   i/s/x/f as for `wait` (read while following), r<from> ready (read while coordinating), f<from> fail in both.
 	//   => mode=<w|c>;sel=<candidates>;r=<ready targets>;start=<subset|none>;run=<c:subset|w:params>;res=<…>
@@ -251,34 +288,52 @@ func init() {
 		t := int(u64(a[1]))
 		sid := c07Sid(a[2])
 		peers := c07PeerList(a[3])
+		first, claimant := a[4], a[5]
 		ord := c07Order(peers, sid)
-		if len(ord) == 0 || ord[0] == self {
+		if len(ord) == 0 || (first == "silent" && ord[0] == self) {
 			return "selfcoord"
 		}
 		c := ord[0]
+		// whom the relayer follows in the second attempt, by the harness' own computation (scenario shaping only)
+		excl := []peer.ID{}
+		switch {
+		case first == "silent":
+			excl = []peer.ID{c}
+		case first[0] == 'c' && first != "cnone":
+			excl = []peer.ID{c07Peer(first[1:])}
+		case first[0] == 't' && len(first) > 1:
+			excl = c07PeerList(strings.ReplaceAll(first[1:], "+", ","))
+		}
+		isExcl := func(p peer.ID) bool {
+			for _, x := range excl {
+				if x == p {
+					return true
+				}
+			}
+			return false
+		}
 		elected := self
-		if a[4] != "-" {
+		if claimant != "-" {
 			is, ic := -1, -1
 			k := 0
 			for _, p := range ord {
-				if p == c {
+				if isExcl(p) {
 					continue
 				}
 				if p == self {
 					is = k
 				}
-				if p == c07Peer(a[4]) {
+				if p == c07Peer(claimant) {
 					ic = k
 				}
 				k++
 			}
 			if ic >= 0 && is >= 0 && ic < is {
-				elected = c07Peer(a[4])
+				elected = c07Peer(claimant)
 			}
 		}
-		e := c11NewEnv(self, t, sid, peers, true, a[4] != "-")
-		e.setSilent()
-		e.co.CoordinatorTimeout = 30 * time.Millisecond
+		e := c11NewEnv(self, t, sid, peers, true, claimant != "-")
+		f := e.prepareFirst(first, "-", c, nil)
 		cm := e.cm
 		ctx, cancel := context.WithCancel(context.Background())
 		defer cancel()
@@ -286,12 +341,13 @@ func init() {
 		var rerr error
 		go func() {
 			defer close(done)
-			rerr = e.co.Execute(ctx, []tss.TssProcess{e.proc}, make(chan interface{}, 4))
+			rerr = c07Guard(func() error { return e.co.Execute(ctx, []tss.TssProcess{e.proc}, make(chan interface{}, 4)) })
 		}()
-		note := ""
+		_, runMark, note := f.drive(done, t)
+		castMark := f.castMark
 		nInit := func() int {
 			k := 0
-			for _, b := range cm.casts {
+			for _, b := range cm.casts[castMark:] {
 				if b.typ == comm.TssInitiateMsg {
 					k++
 				}
@@ -306,8 +362,8 @@ func init() {
 		}
 		if st := e.firstOf(done, conds, []string{"bully"}); st != "bully" {
 			note += ";noelection-" + st
-		} else if a[4] != "-" {
-			if r := e.claim(done, c07Peer(a[4]), 0); r != "ok" {
+		} else if claimant != "-" {
+			if r := e.claim(done, c07Peer(claimant), castMark); r != "ok" {
 				note += ";" + r
 			}
 		}
@@ -315,7 +371,7 @@ func init() {
 		aborted, running := false, false
 		stop := e.stopOn(done)
 	loop:
-		for _, ev := range items(a[5], ";") {
+		for _, ev := range items(a[6], ";") {
 			kind := ev[0]
 			rest, tag := ev[1:], ""
 			if i := strings.Index(rest, ":"); i >= 0 {
@@ -373,7 +429,7 @@ func init() {
 			}
 		}
 		if cm.waitUntil(c07Patience(), nil, func() bool {
-			for _, b := range cm.casts {
+			for _, b := range cm.casts[castMark:] {
 				if b.typ == comm.CoordinatorSelectMsg {
 					return true
 				}
@@ -396,7 +452,7 @@ func init() {
 		sel, start := "none", "none"
 		rs := []string{}
 		cm.mu.Lock()
-		for _, b := range cm.casts {
+		for _, b := range cm.casts[castMark:] {
 			switch b.typ {
 			case comm.CoordinatorSelectMsg:
 				if sel == "none" {
@@ -419,7 +475,7 @@ func init() {
 		}
 		cm.mu.Unlock()
 		runs := []string{}
-		for _, r := range e.proc.runList() {
+		for _, r := range e.proc.runList()[runMark:] {
 			if r.coordinator {
 				runs = append(runs, "c:"+c07ParamPeers(r.params))
 			} else {
@@ -454,7 +510,7 @@ func init() {
 		var rerr error
 		go func() {
 			defer close(done)
-			rerr = co.Execute(ctx, []tss.TssProcess{proc}, make(chan interface{}, 4))
+			rerr = c07Guard(func() error { return co.Execute(ctx, []tss.TssProcess{proc}, make(chan interface{}, 4)) })
 		}()
 		running, aborted := false, false
 		note := ""
@@ -629,6 +685,40 @@ func genC07(g *G) {
 		}
 		g.Emit(op, c07RandSid(g), joinOr(set, ","))
 	}
+	// ---- the constructors on relayers with different local views (peerstores): same valid coordinators, same election
+	for ki, kind := range []string{"ecdsa", "frost"} {
+		hs := []string{"0", "1", "2", "3"}
+		for mask := 0; mask < 32; mask++ { // every subset of the holders plus an outsider in the peerstore
+			ps := []string{}
+			for b, p := range []string{"0", "1", "2", "3", "7"} {
+				if mask&(1<<b) != 0 {
+					ps = append(ps, p)
+				}
+			}
+			for si, self := range hs {
+				if (mask+si+ki)%2 == 1 && !g.Thorough() {
+					continue
+				}
+				own := ps
+				if !c07Contains(own, self) {
+					own = append(append([]string{}, ps...), self)
+				}
+				g.Emit("newsigning", kind, self, "1", hx([]byte(c07Sids[(mask+si)%4])), joinOr(hs, ","), joinOr(own, ","))
+			}
+		}
+	}
+	for i := 0; i < g.Count(200, 10000); i++ {
+		n := 2 + g.Intn(6)
+		holders := c07RandPeers(g, n)
+		self := holders[g.Intn(n)]
+		ps := []string{self}
+		for _, p := range c07RandPeers(g, 10) {
+			if p != self && g.Intn(4) != 0 {
+				ps = append(ps, p)
+			}
+		}
+		g.Emit("newsigning", []string{"ecdsa", "frost"}[i%2], self, itoa(1+g.Intn(n-1)), c07RandSid(g), joinOr(holders, ","), joinOr(ps, ","))
+	}
 	// ---- Ready / StartParams of both Signing types on arbitrary ready lists
 	for i := 0; i < g.Count(400, 20000); i++ {
 		n := 2 + g.Intn(6)
@@ -781,20 +871,45 @@ func genC07Retry(g *G) {
 	// follower (self = lowest, claimant = highest remaining): every single message, pairs on the thorough tier
 	alphaW := []string{"i" + hi, "i" + mid, "s" + hi + ":1", "s" + mid + ":2", "x" + mid, "f" + hi, "f" + mid, "f" + c, "x" + hi}
 	c07Seqs(alphaW, g.Count(1, 2), func(seq []string) {
-		g.Emit("retry2", lo, "1", hx([]byte(sid)), "0,1,2,3", hi, joinOr(seq, ";"))
+		g.Emit("retry2", lo, "1", hx([]byte(sid)), "0,1,2,3", "silent", hi, joinOr(seq, ";"))
 	})
 	for _, seq := range []string{
 		"i" + hi + ";f" + mid + ";s" + hi + ":4;f" + mid + ";f" + hi + ";f" + c,
 		"f" + hi + ";i" + hi + ";s" + mid + ":9;f" + lo + ";s" + hi + ":3",
 		"f" + mid + ";f" + mid + ";x" + mid + ";i" + mid + ";x" + hi,
 	} {
-		g.Emit("retry2", lo, "1", hx([]byte(sid)), "0,1,2,3", hi, seq)
+		g.Emit("retry2", lo, "1", hx([]byte(sid)), "0,1,2,3", "silent", hi, seq)
 	}
 	// coordinator of the second attempt (self = highest remaining, nobody claims): ready and fail messages interleaved
 	alphaC := []string{"r" + mid, "r" + lo, "f" + mid, "f" + lo, "f" + c, "r" + c}
 	c07Seqs(alphaC, g.Count(2, 3), func(seq []string) {
-		g.Emit("retry2", hi, []string{"1", "2"}[len(seq)%2], hx([]byte(sid)), "0,1,2,3", "-", joinOr(seq, ";"))
+		g.Emit("retry2", hi, []string{"1", "2"}[len(seq)%2], hx([]byte(sid)), "0,1,2,3", "silent", "-", joinOr(seq, ";"))
 	})
+	// the first attempt fails in Run with an error that names culprits (tss error) / a coordinator error / a communication
+	// error, on the static coordinator and on participants; the culprits report ready again in the second attempt
+	for _, self := range []string{c, hi, lo} {
+		others := []string{}
+		for _, p := range []string{c, hi, mid, lo} {
+			if p != self {
+				others = append(others, p)
+			}
+		}
+		for fi, first := range []string{"t" + others[0], "t" + others[1] + "+" + others[2], "t" + others[2], "c" + others[1], "m", "t"} {
+			for k := 0; k < g.Count(2, 6); k++ {
+				evs := []string{}
+				perm := c07RandPeers(g, 10)
+				for _, p := range perm {
+					if p != self && c07Contains(others, p) {
+						evs = append(evs, "r"+p)
+						if g.Intn(3) == 0 {
+							evs = append(evs, "f"+p)
+						}
+					}
+				}
+				g.Emit("retry2", self, itoa(1+(fi+k)%2), hx([]byte(sid)), "0,1,2,3", first, "-", joinOr(evs, ";"))
+			}
+		}
+	}
 	for i := 0; i < g.Count(24, 400); i++ {
 		n := 3 + g.Intn(4)
 		ps := c07RandPeers(g, n)
@@ -824,7 +939,13 @@ func genC07Retry(g *G) {
 				evs = append(evs, "r"+from)
 			}
 		}
-		g.Emit("retry2", c07Tok(self), itoa(1+g.Intn(n-2)), rsid, joinOr(ps, ","), claimant, joinOr(evs, ";"))
+		first := "silent"
+		if g.Intn(3) == 0 {
+			first = []string{"t" + c07Tok(o[g.Intn(n)]), "t" + c07Tok(o[g.Intn(n)]) + "+" + c07Tok(o[g.Intn(n)]), "m", "c" + c07Tok(o[g.Intn(n)])}[g.Intn(4)]
+			self = o[g.Intn(n)]
+			claimant = "-"
+		}
+		g.Emit("retry2", c07Tok(self), itoa(1+g.Intn(n-2)), rsid, joinOr(ps, ","), first, claimant, joinOr(evs, ";"))
 	}
 }
 
